@@ -185,6 +185,9 @@ def check(pid, tier, seed, V):
         V.cov[f"cases_{build}"] = len(cases)
         if nommap:
             build_harness()
+    if pid == "C09":
+        from . import probes
+        probes.check_clients(tier, seed, V)
     V.cov["traces_validated_against_impl"] += total
     V.sample({"case": {k: beh[0][k] for k in ("loader", "flags", "cause", "flen", "ops")}, "predicted": beh[0]["result"]})
     m = r2.json_lines[len(r2.json_lines) // 2]
